@@ -120,6 +120,12 @@ func (igi IndexGroupInfo) clone() IndexGroupInfo {
 			other.Indexes[i] = igi.Indexes[i].clone()
 		}
 	}
+	if igi.ClearInfo != nil {
+		other.ClearInfo = &ReplicaClearInfo{
+			NoClearIndexId: igi.ClearInfo.NoClearIndexId,
+			ClearPeers:     append([]uint64(nil), igi.ClearInfo.ClearPeers...),
+		}
+	}
 
 	return other
 }
